@@ -1,0 +1,129 @@
+//go:build verif
+
+// Verification hooks (build tag "verif") for the session-level accounting check. Add-only: a
+// server-mode stream underlay over an injected connection, real sessions attached to it with
+// AddSession (real input and output loops), segments handed to a session through its recvChan the
+// way deliverSegmentToSession does, and read-only views of a session's receive side.
+
+package protocol
+
+import (
+	"fmt"
+	"net"
+	"time"
+
+	"github.com/enfein/mieru/v3/pkg/appctl/appctlpb"
+	"github.com/enfein/mieru/v3/pkg/cipher"
+	"github.com/enfein/mieru/v3/pkg/common"
+)
+
+// VerifAcctServer is a server-mode StreamUnderlay (one authenticated connection) over an injected
+// connection. Its event loop is not started: segments are given to sessions by Deliver.
+type VerifAcctServer struct {
+	u     *StreamUnderlay
+	users map[string]*appctlpb.User
+}
+
+// VerifAcctNewServer wraps conn. password only keys the cipher the output loop encrypts with.
+func VerifAcctNewServer(conn net.Conn, password []byte, mtu int, users map[string]*appctlpb.User) (*VerifAcctServer, error) {
+	block, err := cipher.BlockCipherFromPassword(password, false)
+	if err != nil {
+		return nil, err
+	}
+	return &VerifAcctServer{
+		u: &StreamUnderlay{
+			baseUnderlay:       *newBaseUnderlay(false, mtu, nil),
+			conn:               conn,
+			recv:               block,
+			sessionCleanTicker: time.NewTicker(sessionCleanInterval),
+		},
+		users: users,
+	}, nil
+}
+
+// NewSession creates a server session the way the packet underlay does for a segment without a
+// policy of its own (NewSession: the policies of all users are pending) and attaches it.
+func (v *VerifAcctServer) NewSession(id uint32) (*Session, error) {
+	s := NewSession(id, false, v.u.MTU(), v.users, nil)
+	if err := v.u.AddSession(s, nil); err != nil {
+		return nil, err
+	}
+	return s, nil
+}
+
+// Close closes the underlay and its sessions.
+func (v *VerifAcctServer) Close() error { return v.u.Close() }
+
+// VerifAcctBlock returns a cipher block whose context names user.
+func VerifAcctBlock(password []byte, user string) (cipher.BlockCipher, error) {
+	block, err := cipher.BlockCipherFromPassword(password, false)
+	if err != nil {
+		return nil, err
+	}
+	block.SetBlockContext(cipher.BlockContext{UserName: user})
+	return block, nil
+}
+
+// VerifAcctDeliver hands one client-to-server segment to the session's input loop (open session
+// request when open is true, data otherwise) followed by a bare ack, and waits until the input loop
+// has taken the ack out of recvChan — at that point input() of the first segment has returned —
+// or the session is closed (its input loop is gone). It reports whether the loop consumed both.
+func VerifAcctDeliver(s *Session, block cipher.BlockCipher, open bool, seq uint32, payload []byte) (consumed bool, err error) {
+	var md metadata
+	if open {
+		md = &sessionStruct{baseStruct: baseStruct{protocol: uint8(openSessionRequest)}, sessionID: s.id, seq: seq, payloadLen: uint16(len(payload))}
+	} else {
+		md = &dataAckStruct{baseStruct: baseStruct{protocol: uint8(dataClientToServer)}, sessionID: s.id, seq: seq, payloadLen: uint16(len(payload))}
+	}
+	if len(payload) > maxPDU {
+		return false, fmt.Errorf("payload of %d bytes", len(payload))
+	}
+	seg := &segment{metadata: md, payload: append([]byte{}, payload...), transport: common.StreamTransport, block: block}
+	ack := &segment{metadata: &dataAckStruct{baseStruct: baseStruct{protocol: uint8(ackClientToServer)}, sessionID: s.id, seq: seq}, transport: common.StreamTransport}
+	for _, x := range []*segment{seg, ack} {
+		select {
+		case s.recvChan <- x:
+		case <-s.closedChan:
+			return false, nil
+		}
+	}
+	for len(s.recvChan) > 0 {
+		select {
+		case <-s.closedChan:
+			return false, nil
+		default:
+		}
+		time.Sleep(20 * time.Microsecond)
+	}
+	return true, nil
+}
+
+// VerifAcctView is the receive side and the status of a session, as plain values.
+type VerifAcctView struct {
+	UserName   string
+	State      int32
+	Status     uint8
+	Closed     bool
+	Registered bool // uploadBytes and downloadBytes are set
+	QueueLens  []int
+	UnreadLen  int
+}
+
+// VerifAcctView must not be called concurrently with Read.
+func (s *Session) VerifAcctView() VerifAcctView {
+	v := VerifAcctView{
+		UserName:   s.UserName(),
+		State:      s.state.Load(),
+		Closed:     s.closeRequested.Load(),
+		Registered: s.uploadBytes != nil && s.downloadBytes != nil,
+		UnreadLen:  len(s.unreadBuf),
+	}
+	s.oLock.Lock()
+	v.Status = uint8(s.status)
+	s.oLock.Unlock()
+	s.recvQueue.Ascend(func(iter *segment) bool {
+		v.QueueLens = append(v.QueueLens, len(iter.payload))
+		return true
+	})
+	return v
+}
